@@ -95,6 +95,10 @@ func runCaseInner(c Case) vlib.Result {
 		f()
 		return true
 	}
+	if c.WriteCompOff {
+		wsc.EnableWriteCompression(false)
+		res.Classes = append(res.Classes, "write-compression-switched-off")
+	}
 	var segs [][]byte
 	if c.ByteAtATime {
 		lim := len(wire)
